@@ -33,6 +33,11 @@ def sh(cmd, cwd=None, env=None, timeout=900):
 
 
 def main() -> int:
+    if "VERIF_SNAP" not in os.environ:
+        sys.path.insert(0, os.path.join(VERIF, "tools"))
+        from _snap import snapshot
+
+        os.environ["VERIF_SNAP"] = snapshot()
     srcdir, k, pid = sys.argv[1], sys.argv[2], sys.argv[3]
     keep = sys.argv[sys.argv.index("--keep") + 1] if "--keep" in sys.argv else None
     diff = os.path.join(srcdir, f"change{k}.diff")
@@ -76,7 +81,7 @@ def main() -> int:
             mod = importlib.import_module(f"sa.rules.{p.lower()}")
             if getattr(mod, "EXPLANATION", "") == "not implemented":
                 continue
-            rc, out = sh(f"/venv/bin/python -m sa.check {p} --root {wt} --out {tmpo}/out --evidence {tmpo}/ev", cwd=VERIF)
+            rc, out = sh(f"/venv/bin/python -m sa.check {p} --root {wt} --out {tmpo}/out --evidence {tmpo}/ev", cwd=os.environ.get("VERIF_SNAP", VERIF))
             if rc == 1:
                 caught.append(p)
                 detail[p] = [l.strip()[:260] for l in out.splitlines() if l.startswith("  R")][:4]
